@@ -179,9 +179,15 @@ theorem fork_mid {s s1 : St} {ra keep : Nat} {r fr : Rollapp} {st kst : SInfo} (
     rw [hstates, List.length_append, List.length_take]; simp; omega
   have hn1 : IdsNodup s1 := hi.nodup.of_ids (by rw [h1ras])
   constructor
-  · refine ⟨hn1.setRa fr, ?_, ?_, ?_⟩
+  · refine ⟨hn1.setRa fr, ?_, ?_, ?_, ?_⟩
     · show QSorted s1.queue
       rw [h1q]; exact removeIdxAbove_sorted _ _ _ hi.sorted
+    rotate_left
+    · intro e he
+      have he : e ∈ removeIdxAbove s.queue ra keep := by rw [← h1q]; exact he
+      obtain ⟨e0, he0, _, k2, _⟩ := mem_removeIdxAbove _ _ _ _ he
+      rw [setRa_ids, h1ras, ← k2]; exact hi.qra e0 he0
+    rotate_right
     · intro e he
       have he : e ∈ removeIdxAbove s.queue ra keep := by rw [← h1q]; exact he
       obtain ⟨e0, he0, k1, k2, _, k4, k5⟩ := mem_removeIdxAbove _ _ _ _ he
